@@ -21,9 +21,10 @@
 //   cache                                         bytes of the cache file (expected name) -> cache <hex> | cache none | cache nd
 // Canonicalisation: after a dmlc::Error the object is `poisoned`; once the process died with a sanitizer
 // report every result from the point where the undefined behaviour became possible is `ub:oob`; a cache
-// file left behind by an object that was destroyed before its first pass ended has timing-dependent
-// content: `cache nd`, and every result of an object that reuses it is `nd` (the oracle still judges
-// the real results).
+// file that is still being written (first pass, object alive) has timing-dependent content: `cache nd`.
+// (An object destroyed in its first pass finishes the pass in its destructor -- fixes/C10-3.diff -- so the
+// file it leaves is determined; on a tree without that repair the model answers `nd` where the code
+// answers with whatever was written, and the oracle reports class partial-cache-reuse.)
 #include <dmlc/base.h>
 #include <dmlc/filesystem.h>
 #include <dmlc/io.h>
@@ -508,7 +509,9 @@ struct WrapHarness : vh::Harness {
       else { preproc = true; complete = false; }
     };
     auto end_obj = [&]() {
-      if (cached && alive && !nd && preproc) cache[cfile] = complete ? 1 : 2;
+      // the destructor finishes an unfinished first pass (fixes/C10-3.diff): the file it leaves is complete
+      if (cached && alive && !nd && preproc) cache[cfile] = 1;
+      (void)complete;
       alive = false;
     };
     for (size_t i = 0; i < c.ops.size(); ++i) {
@@ -682,10 +685,11 @@ struct WrapHarness : vh::Harness {
       if (wd[0] == "destroy") { end_obj(); continue; }
       if (wd[0] == "cache") {
         // cache file = sequence of (u64 length, bytes) = the chunk stream of the unwrapped split
-        bool determined = cached && cache[cfile] != 2 && !(alive && preproc);
+        bool determined = cached && !(alive && preproc);
         if (!determined) continue;
+        std::string ccls = cache[cfile] == 2 ? "partial-cache-reuse" : "none";
         if (r == "cache none") {
-          if (cache[cfile] == 1) fail->push_back(tag("none") + "no cache file under the documented name " + cfile);
+          if (cache[cfile] != 0) fail->push_back(tag(ccls) + "no cache file under the documented name " + cfile);
           continue;
         }
         auto t = vh::split_ws(r);
@@ -702,9 +706,9 @@ struct WrapHarness : vh::Harness {
           got.push_back(bytes.substr(o + 8, len));
           o += 8 + len;
         }
-        if (!wellformed) fail->push_back(tag("none") + "cache file is not a sequence of (u64 length, bytes)");
+        if (!wellformed) fail->push_back(tag(ccls) + "cache file is not a sequence of (u64 length, bytes)");
         else if (bare(fl, text, k, n, w, false, &want) && got != want)
-          fail->push_back(tag("none") + "cache file holds chunks " + show(got) + ", the unwrapped split's chunks are " + show(want));
+          fail->push_back(tag(ccls) + "cache file holds chunks " + show(got) + ", the unwrapped split's chunks are " + show(want));
         continue;
       }
       if (!alive) continue;
